@@ -16,7 +16,7 @@ EXPLANATION = ("arma2psd is executed on symbolic complex coefficient vectors, sy
                "Fourier/multitaper/subspace values unchanged, minimum variance proportional).")
 BOUNDS = {
     "quick": "arma2psd: len(A), len(B) <= 2 complex, NFFT in {3,4,5,8}; classes: all 12 at their minimal sizes "
-             "(N 3..5, order 1, NFFT=4; real data, complex for the cheap ones)",
+             "(N 3..5, order 1, NFFT in {4,5}; real data, complex for the cheap ones)",
     "thorough": "arma2psd NFFT 3..8, len <= 2; classes real and complex, NFFT in {4,5}, order <= 2 where the estimator allows",
 }
 ASSUMPTIONS = ["floats modelled as exact reals; numpy.pi enters as the exact rational value of the double",
@@ -122,9 +122,7 @@ def cases(tier, seed):
                 continue
             if cplx and name in ('parma', 'pma'):
                 continue
-            for n in ((4,) if q else (4, 5)):
-                if name == 'pcorrelogram' and not cplx and n % 2:
-                    continue      # odd NFFT with real data: AssertionError in twosided_2_onesided (reported by C02)
+            for n in (4, 5):
                 orders = (1,) if (q or name in ('parma', 'pma', 'pminvar', 'pmusic', 'pev', 'Periodogram',
                                                 'pcorrelogram', 'MultiTapering')) else (1, 2)
                 for order in orders:
